@@ -580,9 +580,12 @@ class t2listing(object):
             nelt_tables = 0
         else: tname = last_tablename
         while tname != tablename:
-            if tname == 'primary': keyword='_____'
-            else: keyword = '@@@@@'
-            self.skipto(keyword,0)
+            # the primary table has no '@@@@@' line after it: it ends at the '_____' line
+            # that next_table_TOUGHplus() looks for. Coming from its header, the '_____'
+            # line under the header has to be skipped first:
+            if tname == 'primary':
+                if tname != last_tablename: self.skipto('_____',0)
+            else: self.skipto('@@@@@',0)
             tname = self.next_table_TOUGHplus()
             if tname == 'element':
                 nelt_tables += 1
@@ -988,6 +991,10 @@ class t2listing(object):
                 return name
             else: return None
 
+        # order of tables in the listing file:
+        table_order = ['element', 'element1', 'connection',
+                       'primary', 'element2', 'generation']
+
         def ordered_selection(selection, tables, short_types, short_indices):
             """Given the initial history selection, returns a list of tuples of
             table name and table selections.  The tables are in the
@@ -1025,9 +1032,7 @@ class t2listing(object):
                                                     reverse, sel_index))
             tables = list(set([sel[0] for sel in converted_selection]))
             # need to retain table order as in the file:
-            tables = [tname for tname in
-                      ['element', 'element1', 'connection',
-                       'primary', 'element2', 'generation'] if tname in tables]
+            tables = [tname for tname in table_order if tname in tables]
             tableselection, short_tableselection = [], []
             for table in tables:
                 tselect = [(i, h, rev, sel_index)
@@ -1064,7 +1069,10 @@ class t2listing(object):
                     else: tablename = tname
                     if not (is_short and not (tablename in self.short_types)):
                         self.skip_to_table(tname, last_tname, nelt_tables)
-                        if tname.startswith('element'): nelt_tables += 1
+                        # number of element tables passed so far (TOUGH+), including
+                        # those not in the selection:
+                        nelt_tables = len([t for t in table_order[:table_order.index(tname) + 1]
+                                           if t.startswith('element')]) - 1
                         cols = self._table[tname].column_name
                         ncols = self._table[tname].num_columns
                         expected_floats = self.table_expected_floats(tname, cols)
